@@ -682,9 +682,9 @@ func (e *Env) Step(c int) {
 	e.outs = e.outs[:0]
 	e.curReq = q.req
 	e.curConn = cn
-	if q.req != nil && q.req.Kind == 42 {
-		cn.latN, cn.latIssued, cn.latLast, cn.finalSlept = q.req.A, 0, 0, false
-	}
+	// a signed-latency request restarts the harness's bookkeeping of the measurement only if the server accepts it
+	// (it then issues the first ping while handling the request: see below); a refused one leaves the running
+	// measurement, and the bookkeeping, as they are
 	if q.req != nil && q.req.Kind == 39 {
 		if cn.latN >= 3 && cn.latIssued == cn.latN && q.req.Rid == cn.latLast {
 			// the final round of a measurement: make it recognisably the longest
@@ -709,6 +709,9 @@ func (e *Env) Step(c int) {
 	}
 	for _, d := range e.outs {
 		if d.Conn == c && len(d.Msg) == 2 && d.Msg[0] == 38 {
+			if q.req != nil && q.req.Kind == 42 {
+				cn.latN, cn.latIssued, cn.finalSlept = q.req.A, 0, false
+			}
 			cn.latIssued++
 			cn.latLast = uint32(d.Msg[1])
 		}
